@@ -220,6 +220,23 @@ CLAIMED = {
         "classes as 9 type tags with PARENT_RULES transcribed; zone class promotion and UFH circuits not modelled.",
         "6 (C15)",
     ),
+    "C12": (
+        "Coq proof (abstract learner: soundness and monotonicity of learning from a conforming controller's replies by case analysis, completeness after two loss-free rounds from ANY true state by induction over the polling tables, hence 'losses only delay' for every loss pattern) + reply-by-reply correspondence on a real gateway + whole-gateway discovery oracle on a virtual loop",
+        "5 theorems in coq/props/C12.v about coq/model/M_Discover.v (= the 0005/000C polling tables of SystemBase/MultiZone/StoredHw/Zone/"
+        "DhwZone, the interpretation of the replies in MultiZone/Zone/DhwZone/StoredHw/SystemBase._handle_msg, and a conforming "
+        "controller): for EVERY configuration (any zones 00-0B of the four classes, any sensors/actuators, any DHW parts, any appliance "
+        "control) what is learnt from any reply is true of the configuration; nothing learnt is ever lost or replaced whatever reply "
+        "arrives; after ANY loss patterns over any number of rounds, two loss-free rounds make the knowledge equal the configuration. "
+        "PARTIAL: the model's round abstracts the implementation's timing (due times, 24 h interval, back-off, QoS) -- that a lost reply "
+        "is really asked for again is decided by the oracle, which runs the whole Gateway (discovery on, no schema) for 0.3-52 virtual "
+        "hours against a scripted controller under six loss patterns and checks at five probe times that the schema is contained in the "
+        "configuration, contains the previous probe's, and finally equals it. UFH zones are outside quantifier and model. Tie: ~40 "
+        "(thorough 160) generated configurations x shuffled request orders fed as RQ/RP pairs to a real gateway vs the model's learn after "
+        "every reply; the 0005/000C requests written in loss-free runs = the model's polling tables.",
+        "Trusted: Coq kernel, harness (virtual loop/datetime, in-memory transport, scripted controller). Modelled not verified: device "
+        "ids as numbers; set_parent type rules (C15's model) assumed satisfied by the generated configurations.",
+        "6 (C12)",
+    ),
 }
 
 NOT_YET = "not claimed yet: the Coq model and correspondence harness for this property are not built in this revision (planned in DESIGN.md section 6)"
